@@ -21,14 +21,34 @@ ALLOWED_OPS = {'mul', 'div', 'pow', 'sqrt', 'sin', 'cast', 'unit-scale', 'recipr
 MAX_OPS = 14  # frozen: today's maximum is 9 (dspacing_from_tof)
 
 
+class Branching(Exception):
+    """The kernel branches on its (symbolic) inputs or refuses some of them."""
+
+    def __init__(self, fi, outs):
+        self.fi, self.outs = fi, outs
+        self.detail = {'paths': [(o.kind, o.exc_type, o.where) for o in outs][:6],
+                       'documented': 'one formula for all valid inputs, no refusal'}
+
+
 def single_return(outs, fi):
     rs = returns(outs)
     if len(rs) != 1 or len(outs) != 1:
-        raise AnalysisError(f'{fi.fq}: expected a single straight-line path, got {len(outs)}')
+        raise Branching(fi, outs)
     return rs[0]
 
 
 def run(tier: str) -> Run:
+    try:
+        return _run(tier)
+    except Branching as b:
+        r = Run('C01', tier, 'other', 'see the regular run; this run stopped at a kernel that branches on its inputs')
+        r.analysed = {'modules': ['conversion.tof']}
+        rr = r.rule('R0', 'every elastic kernel is one formula for all valid inputs (no data-dependent branch, no refusal)', 1)
+        rr.fail(b.fi.qualname, loc(b.fi), b.detail, key=f'{b.fi.qualname}:branching')
+        return r
+
+
+def _run(tier: str) -> Run:
     run = Run('C01', tier, 'other',
               'Each elastic kernel of conversion/tof.py is interpreted once over its AST in an exact '
               'algebraic normal form (power products of the parameters and of the scipp.constants '
